@@ -178,6 +178,109 @@ func sysNamesakeImport(p *Pkg, f *File) []edit {
 	return eds
 }
 
+// namesake-import under another qualifier: `"strings"` becomes `u_strings "stresslib/strings"`, every use of the
+// qualifier is renamed, and the real package stays imported (blank) so that file-level import filters still hold.
+func sysNamesakeAlias(p *Pkg, f *File) []edit {
+	libs := map[string]bool{}
+	for _, l := range StressLibs() {
+		libs[l] = true
+	}
+	var eds []edit
+	for _, is := range f.AST.Imports {
+		path := strings.Trim(is.Path.Value, `"`)
+		base := path[strings.LastIndex(path, "/")+1:]
+		if is.Name != nil || !libs[base] || (path != base && path != "path/filepath") {
+			continue
+		}
+		pn, _ := p.Info.Implicits[is].(*types.PkgName)
+		if pn == nil {
+			continue
+		}
+		alias := "u_" + base
+		eds = append(eds, edit{off(is.Path.Pos()), off(is.Path.End()), alias + ` "stresslib/` + base + `"`})
+		for id, o := range p.Info.Uses {
+			if o == types.Object(pn) && Fset.File(id.Pos()) == Fset.File(f.AST.Pos()) {
+				eds = append(eds, edit{off(id.Pos()), off(id.End()), alias})
+			}
+		}
+		eds = append(eds, edit{len(f.Src), len(f.Src), fmt.Sprintf("\nimport _ %q\n", path)})
+	}
+	// imports must precede other declarations: put the blank imports right after the package clause instead
+	var blanks []string
+	kept := eds[:0]
+	for _, e := range eds {
+		if e.a == len(f.Src) && strings.HasPrefix(e.text, "\nimport _") {
+			blanks = append(blanks, strings.TrimSpace(e.text))
+			continue
+		}
+		kept = append(kept, e)
+	}
+	eds = kept
+	if len(blanks) > 0 {
+		at := off(f.AST.Name.End())
+		eds = append(eds, edit{at, at, "\n\n" + strings.Join(blanks, "\n") + "\n"})
+	}
+	return eds
+}
+
+// ---------- pkglevel-funclit ----------
+// Every (non-generic) function declaration is copied into a package-level `var _ = func(recv, params) results { body }`
+// placed before the first declaration of the file: the statements of the corpus are then also reached inside
+// package-level function literals that precede every function body.
+func sysPkgLevelFuncLit(f *File) []edit {
+	var lits []string
+	for _, d := range f.AST.Decls {
+		fd, ok := d.(*ast.FuncDecl)
+		if !ok || fd.Body == nil || fd.Type.TypeParams != nil {
+			continue
+		}
+		params := string(f.Src[off(fd.Type.Params.Opening)+1 : off(fd.Type.Params.Closing)])
+		if fd.Recv != nil {
+			if len(fd.Recv.List) != 1 {
+				continue
+			}
+			generic := false
+			ast.Inspect(fd.Recv.List[0].Type, func(n ast.Node) bool {
+				switch n.(type) {
+				case *ast.IndexExpr, *ast.IndexListExpr:
+					generic = true
+				}
+				return true
+			})
+			if generic {
+				continue
+			}
+			recv := string(f.Src[off(fd.Recv.Opening)+1 : off(fd.Recv.Closing)])
+			if strings.TrimSpace(params) == "" {
+				params = recv
+			} else {
+				params = recv + ", " + params
+			}
+		}
+		rest := string(f.Src[off(fd.Type.Params.Closing)+1 : off(fd.Body.End())])
+		lits = append(lits, "var _ = func("+params+")"+rest+"\n")
+	}
+	if len(lits) == 0 {
+		return nil
+	}
+	// before the first non-import declaration
+	at := len(f.Src)
+	for _, d := range f.AST.Decls {
+		if gd, ok := d.(*ast.GenDecl); ok && gd.Tok == token.IMPORT {
+			continue
+		}
+		at = off(d.Pos())
+		if fd, ok := d.(*ast.FuncDecl); ok && fd.Doc != nil {
+			at = off(fd.Doc.Pos())
+		}
+		if gd, ok := d.(*ast.GenDecl); ok && gd.Doc != nil {
+			at = off(gd.Doc.Pos())
+		}
+		break
+	}
+	return []edit{{at, at, strings.Join(lits, "\n") + "\n"}}
+}
+
 // ---------- namesake-var ----------
 // For every import "q" of the file (no explicit name): the import is renamed to real_q; inside every function
 // declaration that calls q.F the statement `q := ns_q__{}` is inserted, where ns_q__ has one method per used package
@@ -620,6 +723,13 @@ func Systematic(bases []*Pkg, tier string, seed int64, stats map[string]int) []*
 					lastAdded.ClaimCheck = "*"
 				}
 			}
+			if base.Stream == "S1" {
+				add(base, f, "pkglevel-funclit", sysPkgLevelFuncLit(f), nil)
+				if lastAdded != nil {
+					lastAdded.Fresh = true
+				}
+			}
+			add(base, f, "namesake-alias", sysNamesakeAlias(base, f), nil)
 			add(base, f, "namesake-import", sysNamesakeImport(base, f), nil)
 			add(base, f, "namesake-var", sysNamesakeVar(base, f, id), nil)
 		}
